@@ -40,6 +40,9 @@ def run(check, mirror, tier):
     crate = MirCrate(mirror, ["model-evaluator", "feel"], overflow_checks=True, enum_crates=("common", "feel", "model"))
     C04_boxed.jobs_for(check, mirror, rb, crate, fv.Universe(mirror), jobs, tier)
     run_parallel(check, jobs)
+    # boxed contexts and decision services as nodes: decided by C13 / C11, part of this property's statement as well
+    run_companion(check, mirror, tier, "C13", ["scope_balance/build_context_evaluator"])
+    run_companion(check, mirror, tier, "C11", ["decision_service_output"])
 
 
 def build_jobs(check, mirror, tier, rb, oid="decision_closure", lock_models=None, post_hook=None, replay_override=None, me_value=None):
